@@ -511,6 +511,18 @@ class Interp:
                     if pl is not None and not pl['p']:
                         env[pl['l']] = env[root['l']]
                     return ('tuple', ()), args
+        # `v.extend([a, b])` on a vector that is not a concrete element list (a symbolic receiver, a field of one) is `v.push(a); v.push(b)`:
+        # the call is followed by one synthesized push effect per element, in order, so that rules which look at what is pushed where see
+        # the same thing for both spellings
+        if not c.get('local') and name == 'extend' and path_endswith(tr, 'iter::Extend') and (c.get('self_ty') or '').startswith('std::vec::Vec<') \
+                and len(args) == 2 and args[0][0] != 'tuple' and args[1][0] == 'tuple' and (c.get('args') or [''])[-1].startswith('['):
+            pushes = []
+            nv = dict(env.get('__vec_last') or {})
+            for el in args[1][1]:
+                pushes.append(('std::vec::Vec::<T, A>::push', 'std::vec::Vec::<T, A>::push', (args[0], el), t['span'], ('tuple', ())))
+                nv[args[0]] = el
+            env['__vec_last'] = nv
+            return ('paths', [(('tuple', ()), tuple(pushes))]), args
         if self.vec_model and not c.get('local') and 'vec::Vec' in d and name in ('remove', 'swap_remove', 'pop') and args and args[0][0] == 'tuple' \
                 and (name == 'pop' or (len(args) == 2 and args[1][0] == 'c' and isinstance(args[1][1], int))):
             el = list(args[0][1])
@@ -607,6 +619,10 @@ class Interp:
                         return (SOME(el[-1]) if el else NONE), args
                     if name in ('to_vec', 'into_vec', 'into', 'from', 'as_slice', 'as_mut_slice'):
                         return args[0], args
+                    if name in ('split_first', 'split_first_mut') and 'slice' in d:
+                        return (SOME(('tuple', (el[0], ('tuple', tuple(el[1:]))))) if el else NONE), args
+                    if name in ('split_last', 'split_last_mut') and 'slice' in d:
+                        return (SOME(('tuple', (el[-1], ('tuple', tuple(el[:-1]))))) if el else NONE), args
                 if len(args) == 2 and name in ('index', 'get') and args[1][0] == 'adt' and args[1][1].split('::')[-1] in ('RangeFrom', 'RangeTo', 'Range', 'RangeFull') \
                         and all(x[0] == 'c' and isinstance(x[1], int) for x in args[1][4]):
                     # sub-slice with constant bounds
